@@ -201,3 +201,72 @@ pub fn peer_message(local: Ty, tag: &str) -> Vec<Vec<u8>> {
         _ => vec![tag.as_bytes().to_vec()],
     }
 }
+
+/// Moves the calling (still single-threaded) process into a private network
+/// namespace with the loopback interface up, so that ports used by this process
+/// cannot be taken by anybody else. Returns false if the kernel refuses.
+pub fn enter_private_netns() -> bool {
+    unsafe {
+        if libc::unshare(libc::CLONE_NEWNET) != 0 {
+            return false;
+        }
+        let fd = libc::socket(libc::AF_INET, libc::SOCK_DGRAM, 0);
+        if fd < 0 {
+            return false;
+        }
+        let mut ifr: libc::ifreq = std::mem::zeroed();
+        ifr.ifr_name[0] = b'l' as libc::c_char;
+        ifr.ifr_name[1] = b'o' as libc::c_char;
+        if libc::ioctl(fd, libc::SIOCGIFFLAGS, &mut ifr) != 0 {
+            libc::close(fd);
+            return false;
+        }
+        ifr.ifr_ifru.ifru_flags |= libc::IFF_UP as libc::c_short;
+        let r = libc::ioctl(fd, libc::SIOCSIFFLAGS, &ifr);
+        libc::close(fd);
+        if r != 0 {
+            return false;
+        }
+    }
+    // both families must be usable
+    std::net::TcpListener::bind("127.0.0.1:0").is_ok() && std::net::TcpListener::bind("[::1]:0").is_ok()
+}
+
+/// Runs `zv e4-shard <prop> <tier> <i> <n>` children, each in its own network
+/// namespace; collects the JSON lines they print. None if namespaces are unavailable.
+pub fn run_sharded(prop: &str, tier: &str, shards: usize) -> Option<Vec<serde_json::Value>> {
+    let exe = std::env::current_exe().ok()?;
+    let mut children = Vec::new();
+    for i in 0..shards {
+        let ch = std::process::Command::new(&exe)
+            .args(["e4-shard", prop, tier, &i.to_string(), &shards.to_string()])
+            .stdin(std::process::Stdio::null())
+            .stdout(std::process::Stdio::piped())
+            .stderr(std::process::Stdio::inherit())
+            .spawn()
+            .ok()?;
+        children.push(ch);
+    }
+    let mut out = Vec::new();
+    let mut ok = true;
+    for ch in children {
+        let o = ch.wait_with_output().ok()?;
+        if o.status.code() == Some(77) {
+            ok = false;
+            continue;
+        }
+        if !o.status.success() {
+            out.push(serde_json::json!({"machinery": format!("e4 shard exited with {:?}", o.status)}));
+        }
+        for l in String::from_utf8_lossy(&o.stdout).lines() {
+            if let Ok(v) = serde_json::from_str::<serde_json::Value>(l) {
+                out.push(v);
+            }
+        }
+    }
+    if ok {
+        Some(out)
+    } else {
+        None
+    }
+}
